@@ -2,6 +2,7 @@ package regexp2
 
 import (
 	"bytes"
+	"errors"
 	"fmt"
 	"math"
 	"slices"
@@ -78,6 +79,10 @@ type Runner struct {
 // preserving textstart for anchors such as \G.
 // textInfo is nil for quick scans that do not need returned capture text metadata.
 func (re *Regexp) run(quick bool, textstart, previousMatchLength int, input []rune, textInfo *matchText) (*Match, error) {
+
+	if textstart > len(input) {
+		return nil, errors.New("startAt must not be greater than the length of the input")
+	}
 
 	// get a cached runner
 	runner := re.getRunner()
